@@ -10,6 +10,7 @@ Corr:    Lean model `Between` — definition-level spec (dist / sigma / bcSpec /
 import sys, zlib
 from fractions import Fraction as Fr
 from common import *  # noqa
+sys.path.insert(0, os.path.join(VERIF, 'translate')); import cores  # noqa: E402
 
 PID = 'C08'
 TOL = 1e-9
@@ -630,7 +631,12 @@ def main():
                        'a call that times out at 5 s is re-tried once with 50 s; a second timeout is a does-not-return violation with the input as replay',
                        'floats of the real routines are compared with exact rationals at 1e-9 relative to max(1,|x|)',
                        'results are functions of the argument values: after any earlier call g(A) and an in-place edit of A, f(A) must equal f(copy of A) bit for bit']
+    # T-gen: whole bodies of betweenness_bin / edge_betweenness_bin re-extracted from /repo's current source (translate/cores.py)
+    ck.cov['cores'] = cores.generate(families=['betw'])
+    for p_ in ck.cov['cores']['problems']:
+        ck.corr_break('core extractor (translate/cores.py)', p_)
     ok = ck.lean_gate(['BctVerif.Props.C08'], extra_modules=['BctVerif.Model.Between'])
+    ck.lean_gate([], gen_modules=['BctVerif.Gen.CoresBetw'])
     if ck.tier == 'thorough' and ok:
         ck.leanchecker(['BctVerif.Props.C08', 'BctVerif.Model.Between'])
     rs = ck.rs
